@@ -57,6 +57,7 @@ def _group_cpu(pgid):
 
 
 WALL_FACTOR = 8
+STALL_SECONDS = 600
 
 
 def sh(cmd, timeout, mem_gb, cwd, env=None, stdout_path=None):
@@ -72,15 +73,22 @@ def sh(cmd, timeout, mem_gb, cwd, env=None, stdout_path=None):
                          preexec_fn=_limits(mem_gb))
     o = er = None
     expired = False
+    stalled = False
     peak = 0.0
+    last_progress = time.time()
     while True:
         try:
             o, er = p.communicate(timeout=2)
             break
         except subprocess.TimeoutExpired:
             cpu = _group_cpu(p.pid)
+            if cpu > peak + 0.5:
+                last_progress = time.time()
             peak = max(peak, cpu)
-            if peak > timeout or time.time() - t0 > WALL_FACTOR * timeout:
+            if time.time() - last_progress > STALL_SECONDS:
+                # no CPU consumed for a long time: e.g. cbmc waiting for an external solver that died
+                stalled = True
+            if stalled or peak > timeout or time.time() - t0 > WALL_FACTOR * timeout:
                 expired = True
                 try:
                     os.killpg(p.pid, signal.SIGKILL)
@@ -88,6 +96,10 @@ def sh(cmd, timeout, mem_gb, cwd, env=None, stdout_path=None):
                     pass
                 p.wait()
                 break
+    if expired and stalled:
+        if stdout_path:
+            out.close()
+        raise Undecided('tool-error', '%s made no progress for %ds (an external solver process may have died); killed' % (cmd[0], STALL_SECONDS))
     if expired:
         if stdout_path:
             out.close()
